@@ -386,17 +386,20 @@ theorem unprot_accept_rules (u : Wire) (um : GoMap) (h : decUnprot u = .ok um) :
   unfold decUnprot at h
   cases hl : labelsOK kvs [] with
   | ok x =>
+    simp only [hl] at h
+    split at h
+    · cases h
     cases hd : decUnprotPairs kvs with
     | ok m =>
-      simp only [hl, hd] at h
+      simp only [hd] at h
       by_cases hv : validateHeaderParameters m false = true
       · simp only [hv, if_true] at h
         cases h
         exact hv
       · simp [hv] at h
-    | err e => simp [hl, hd] at h
-    | panic => simp [hl, hd] at h
-    | unmodelled => simp [hl, hd] at h
+    | err e => simp [hd] at h
+    | panic => simp [hd] at h
+    | unmodelled => simp [hd] at h
   | err e => simp [hl] at h
   | panic => simp [hl] at h
   | unmodelled => simp [hl] at h
@@ -410,17 +413,20 @@ theorem decUnprot_ok {u : Wire} {um : GoMap} (h : decUnprot u = .ok um) :
   unfold decUnprot at h
   cases hl : labelsOK kvs [] with
   | ok x =>
+    simp only [hl] at h
+    split at h
+    · cases h
     cases hd : decUnprotPairs kvs with
     | ok m =>
-      simp only [hl, hd] at h
+      simp only [hd] at h
       by_cases hv : validateHeaderParameters m false = true
       · simp only [hv, if_true] at h
         cases h
         exact ⟨rfl, rfl, hv⟩
       · simp [hv] at h
-    | err e => simp [hl, hd] at h
-    | panic => simp [hl, hd] at h
-    | unmodelled => simp [hl, hd] at h
+    | err e => simp [hd] at h
+    | panic => simp [hd] at h
+    | unmodelled => simp [hd] at h
   | err e => simp [hl] at h
   | panic => simp [hl] at h
   | unmodelled => simp [hl] at h
